@@ -180,7 +180,7 @@ class Abs:
     def _single_def(self, fn: FuncInfo, name: str) -> Optional[ast.AST]:
         return self.cg.env(fn).single_def(name)
 
-    def _dominating_def(self, fn: FuncInfo, name: str, node: ast.AST) -> Optional[ast.expr]:
+    def _dominating_def(self, fn: FuncInfo, name: str, node: ast.AST, default_idiom: bool = False) -> Optional[ast.expr]:
         """The expression last assigned to local `name` on EVERY path to `node`: the closest `name = E` that precedes the
         statement of `node` in its own block or in an enclosing block, with no statement in between that may bind the name
         again (a loop around the use must not bind it at all: the back edge would carry the later value)."""
@@ -214,6 +214,15 @@ class Abs:
                     return st.value
                 if isinstance(st, ast.AnnAssign) and isinstance(st.target, ast.Name) and st.target.id == name and st.value is not None:
                     return st.value
+                if default_idiom and isinstance(st, ast.If) and not st.orelse and len(st.body) == 1 and isinstance(st.body[0], ast.Assign) \
+                        and len(st.body[0].targets) == 1 and isinstance(st.body[0].targets[0], ast.Name) and st.body[0].targets[0].id == name:
+                    # `if x is None: x = E` / `if not x: x = E`: afterwards x is None only if E is
+                    t = st.test
+                    if (isinstance(t, ast.Compare) and len(t.ops) == 1 and isinstance(t.ops[0], (ast.Is, ast.Eq)) and
+                            isinstance(t.left, ast.Name) and t.left.id == name and isinstance(t.comparators[0], ast.Constant)
+                            and t.comparators[0].value is None) or \
+                            (isinstance(t, ast.UnaryOp) and isinstance(t.op, ast.Not) and isinstance(t.operand, ast.Name) and t.operand.id == name):
+                        return st.body[0].value
                 if binds(st):
                     return None
             if par is fn.node:
@@ -295,6 +304,13 @@ class Abs:
             v.none = NO
             if YES in (l.truthy, r.truthy) and strip_opt(t)[0] in ('str', 'list'):
                 v.truthy = YES
+        elif isinstance(e, ast.BoolOp) and isinstance(e.op, ast.Or) and depth < 4:
+            # `a or b` is a when a is truthy (hence not None), else b
+            last = self.at(fn, e.values[-1], node, depth + 1)
+            if last.none == NO:
+                v.none = NO
+            if last.truthy == YES or any(self.at(fn, x, node, depth + 1).truthy == YES for x in e.values[:-1]):
+                v.truthy = YES
         elif isinstance(e, ast.IfExp):
             a, b = self.at(fn, e.body, node, depth + 1), self.at(fn, e.orelse, node, depth + 1)
             v.none = a.none if a.none == b.none else MAYBE
@@ -345,7 +361,7 @@ class Abs:
                     v.const, v.has_const = dv.const, dv.has_const
                 elif node is not None and v.none == MAYBE and e.id in self.cg.env(fn)._assign_sites and \
                         isinstance(getattr(e, 'ctx', None), ast.Load):
-                    dd = self._dominating_def(fn, e.id, node)
+                    dd = self._dominating_def(fn, e.id, node, default_idiom=True)
                     if dd is not None:
                         dv = self.at(fn, dd, dd, depth + 1)
                         if dv.none == NO:
